@@ -218,3 +218,87 @@ def run(facts, rep, tier):
     rep.rule("C11-R6", "= C04-R3: applying an edit replaces every per-note cache (front matter, line table, title) - insert on Some, remove on None - so that the state after the "
              "last notification is the state of the last text sent, not a mix with earlier ones.")
     _c04.rule_r3(facts, rep, "C11-R6")
+    rep.rule("C11-R7", "The state after a didChange is the LAST text it carries: with full-document sync every content change of one notification replaces the whole text, so the handler applies "
+             "the last one (or all of them in order) - never the first / a fixed index.")
+    rule_last_change_wins(facts, rep, "C11-R7")
+    rep.rule("C11-R8", "Every message taken from the inbox is handled: Router::next_event hands out what the channel yields (no buffering, no loop that can consume a message and go on to the "
+             "next, no look-ahead that decides a queued notification is superseded), and Router::run passes each one to handle_message unconditionally.")
+    rule_every_message_handled(facts, rep, "C11-R8")
+
+
+CONSUMERS = {"try_iter", "try_recv", "recv_timeout", "recv_deadline", "iter", "pop_front", "pop_back", "pop", "drain", "retain", "retain_mut", "filter", "filter_map", "skip", "skip_while",
+             "take_while", "dedup", "dedup_by", "dedup_by_key", "last", "nth", "truncate", "clear", "remove", "swap_remove"}
+
+
+def rule_every_message_handled(facts, rep, rid):
+    from .common import ctx as _ctx, controlling_tests
+    ne = facts.fn("Router::next_event", required=False)
+    run_ = facts.fn("Router::run")
+    rep.saw_fn(run_)
+    hm = facts.fn("Router::handle_message")
+    # the event source(s): every fn of Router between run and the channel
+    srcs = [f for f in ([ne] if ne is not None else [])]
+    for f in srcs:
+        rep.saw_fn(f)
+        key = f.def_ + "|hands-out-what-the-channel-yields"
+        loops = [x for x in fb.walk(f.body) if (x.get("k") == "loop" and x.get("src") in ("Loop", "While") and not x.get("m")) or (x.get("k") == "match" and x.get("src") == "ForLoopDesugar" and not x.get("m"))]
+        cons = sorted(set(x["name"] for x in fb.walk(f.body) if x.get("k") == "mcall" and x["name"] in CONSUMERS and not x.get("m")))
+        extra_params = [p_ for p_ in (f.params or [])[2:]] if hasattr(f, "params") and f.params else []
+        if loops or cons:
+            rep.violation(rid, key, "the event source %s: a message can be taken from the inbox and dropped or overtaken before it is handled - a didChange / didSave skipped here is an edit "
+                          "the server never applies" % ("; ".join(x_ for x_ in ["loops over messages" if loops else "", ("uses " + ", ".join(cons)) if cons else ""] if x_)), f.loc)
+        else:
+            rep.ok(rid, key, "no loop, no buffering / dropping adapter", f.loc)
+    # run: handle_message(message) on every iteration
+    c = _ctx(run_)
+    calls = [x for x in fb.walk(run_.body) if x.get("k") == "mcall" and (fb.callee(x) or "") == hm.def_]
+    key = run_.def_ + "|each-message-reaches-handle_message"
+    if not calls:
+        rep.violation(rid, key, "Router::run no longer calls handle_message", run_.loc)
+    else:
+        u = calls[0]
+        conds = [p_ for p_ in c.parents(u) if p_.get("k") in ("if", "match") and not (p_.get("src") in ("WhileLetDesugar", "ForLoopDesugar") or p_.get("k") == "match" and p_.get("src") not in (None, "Normal"))]
+        # the `while let Some(message) = next_event()` header is the loop itself
+        conds = [p_ for p_ in conds if not any(("call", (ne.def_ if ne is not None else "?")) in c.mentions(p_.get("c") or p_.get("e")) for _ in [0])]
+        cons = sorted(set(x["name"] for x in fb.walk(run_.body) if x.get("k") == "mcall" and x["name"] in CONSUMERS and not x.get("m") and "Receiver" in str((x.get("recv") or {}).get("ty") or "")))
+        if conds:
+            rep.violation(rid, key, "handle_message is called only under `%s`: messages for which it does not hold are taken from the inbox and never handled" % fb.show(conds[0].get("c") or conds[0].get("e"))[:80], "%s:%s" % (run_.file, u.get("ln")))
+        elif cons:
+            rep.violation(rid, key, "Router::run drains the inbox itself (%s)" % ", ".join(cons), run_.loc)
+        else:
+            rep.ok(rid, key, "handle_message(message) is reached for every message next_event returns", "%s:%s" % (run_.file, u.get("ln")))
+
+
+def rule_last_change_wins(facts, rep, rid):
+    from .common import ctx as _ctx
+    hf = facts.fn("Server::handle_did_change_text_document")
+    rep.saw_fn(hf)
+    c = _ctx(hf)
+    key = hf.def_ + "|last-content-change-wins"
+    ups = [x for x in fb.walk(hf.body) if x.get("k") == "mcall" and (fb.callee(x) or "").endswith(("Database::update_document", "Database::insert_document"))]
+    if not ups:
+        rep.anchor_missing(rid, "Database::update_document in handle_did_change_text_document")
+        return
+    u = ups[0]
+    text = u["args"][-1] if u.get("args") else None
+    m = c.vprov(text) | c.mentions(text)
+    if ("field", "content_changes") not in m:
+        # applied inside a loop / for_each over the changes: every change is applied, in order
+        looped = any(p_.get("k") in ("loop", "for", "while") or (p_.get("k") == "closure") for p_ in c.parents(u))
+        whole = c.mentions(hf.body)
+        if looped and ("field", "content_changes") in whole:
+            rep.ok(rid, key, "every content change is applied in order", "%s:%s" % (hf.file, u.get("ln")))
+        else:
+            rep.violation(rid, key, "the text given to update_document does not come from params.content_changes", "%s:%s" % (hf.file, u.get("ln")))
+        return
+    names = set(fb.last_seg(a[1]) for a in m if a[0] == "call" and a[1])
+    last = names & {"last", "pop", "next_back", "last_mut", "rev", "fold", "reduce"}
+    first = names & {"first", "next", "nth", "get", "first_mut", "swap_remove", "remove"}
+    if last and not (first - ({"next"} if "rev" in names else set())):
+        rep.ok(rid, key, "text <- content_changes.%s()" % sorted(last)[0], "%s:%s" % (hf.file, u.get("ln")))
+    elif first or ("index",) in m:
+        rep.violation(rid, key, "the text applied is the FIRST content change (`%s`): a didChange that carries several changes leaves the note at an intermediate text - the last one is the editor's state" % (
+            sorted(first)[0] if first else "[..]"), "%s:%s" % (hf.file, u.get("ln")))
+    else:
+        rep.undecided(rid, key, "cannot see which content change is applied (calls: %s)" % sorted(names), "%s:%s" % (hf.file, u.get("ln")))
+
